@@ -1,12 +1,13 @@
 reg("C19", "a calculation either completes or leaves its data bases untouched",
-    parts=[dict(harness="c19_atomic", cases=dict(quick=6000, thorough=31000), timeout_case=30)],
-    rule="case i = calculator number (i mod 31) of {kriging, xvalid, test_neigh, krigtest, krigcell, kribayes, krigprof, "
+    parts=[dict(harness="c19_atomic", cases=dict(quick=5000, thorough=33000), timeout_case=30)],
+    rule="case i = calculator number (i mod 33) of {kriging, xvalid, test_neigh, krigtest, krigcell, kribayes, krigprof, "
          "kriggam, simtub (conditional / non conditional), migrate, migrateMulti, migrateByAttribute, migrateByLocator, "
          "dbStatisticsOnGrid, dbRegression, rawToGaussianByLocator, rawToGaussian, gaussianToRaw, normalScore, rawToFactor, "
-         "simbayes, simfft, ConditionalExpectation, UniformConditioning, DisjunctiveKriging, PCA dbZ2F, dbF2Z} x a generated "
+         "simbayes, simfft, ConditionalExpectation, UniformConditioning, DisjunctiveKriging, PCA dbZ2F, dbF2Z, dbg2gCopy, "
+         "dbg2gExpand, dbg2gShrink, simpgs (conditional / non conditional), kriging(DGM), simtub(flag_dgm)} x a generated "
          "variant (dimension 1-3, 1-3 variables, point/grid output, unique/moving neighbourhood, drift, external drift, "
          "options, naming convention with/without locator) x generated prior contents (unrelated columns carrying locators "
-         "of every type, a selection, dead UID slots, name collisions with the output prefix). Per case: (1) the valid call "
+         "of every type, a selection, dead UID slots, duplicated data, undefined external drift at targets, columns named exactly like the outputs). Per case: (1) the valid call "
          "from fresh clones, failpoint log recording -> success oracles (input Db bit-identical, pre-existing columns of the "
          "output Db unchanged up to the documented NamingConvention locator rule, number/qualifiers of the new columns); "
          "(2) EVERY (site, k) of the recorded hit list (per-site cap first/second/last in quick, none in thorough) re-run "
@@ -18,15 +19,15 @@ reg("C19", "a calculation either completes or leaves its data bases untouched",
          "distinct = distinct (calculator, discrete variant) signatures with at least one oracle evaluated; the number of "
          "(site, k) pairs enumerated / fired is the evaluation count of the oracles inject-fired / inject-reports-failure",
     level="fault_enumeration",
-    require=dict(distinct=300,
-                 oracles=dict(quick={"inject-fired": 2500, "inject-reports-failure": 2300, "fail-dbin-untouched": 4000,
-                                     "fail-dbout-untouched": 2000, "rerun-after-failure": 5000,
-                                     "success-dbout-preexisting": 700, "success-dbin-untouched": 400,
-                                     "success-new-columns": 700},
-                              thorough={"inject-fired": 30000, "inject-reports-failure": 28000,
-                                        "fail-dbin-untouched": 40000, "fail-dbout-untouched": 20000,
-                                        "rerun-after-failure": 50000, "success-dbout-preexisting": 7000,
-                                        "success-dbin-untouched": 4000, "success-new-columns": 7000})),
+    require=dict(distinct=1000,
+                 oracles=dict(quick={"inject-fired": 10000, "inject-reports-failure": 9500, "fail-dbin-untouched": 18000,
+                                     "fail-dbout-untouched": 12000, "rerun-after-failure": 22000,
+                                     "success-dbout-preexisting": 4500, "success-dbin-untouched": 3000,
+                                     "success-new-columns": 4500},
+                              thorough={"inject-fired": 60000, "inject-reports-failure": 57000,
+                                        "fail-dbin-untouched": 110000, "fail-dbout-untouched": 70000,
+                                        "rerun-after-failure": 140000, "success-dbout-preexisting": 30000,
+                                        "success-dbin-untouched": 17000, "success-new-columns": 30000})),
     assumptions=["faults are injected only at the instrumented sites (calc.after_check / after_preprocess / after_run / "
                  "after_postprocess in ACalculator::run, calc.addvar.db2db, calc.addvar.creator); an internal failure "
                  "branch with neither a failpoint nor a labelled natural trigger is not exercised",
